@@ -161,6 +161,13 @@ def cmp_table(rep, F, rule='ORDER-TABLE'):
                 else:
                     same_nonzero = -1
                 continue
+            if re.match(r'^discr\(cmp\(sign\(arg1\),sign\(arg2\)\)\)$', s):
+                # `match self.sign().cmp(&other.sign())`: Equal arm = same sign
+                if c == ('eq', 0):
+                    same_nonzero |= 1
+                elif c[0] == 'eq' or (c[0] == 'notin' and 0 in c[1]):
+                    same_nonzero = -1
+                continue
             if re.match(r'^Eq\(sign\(arg[12]\),Sign::NoSign\)$', s):
                 if c == ('eq', 0):
                     same_nonzero |= 2
